@@ -190,6 +190,11 @@ impl<T: TearableAtomic> SyncCellReader<T> {
             if let Ok(value) = self.try_read() {
                 return value;
             }
+            #[cfg(nexosim_verif)]
+            {
+                crate::verif::probe(crate::verif::Probe::SeqlockRetry);
+                crate::verif::spin_hint();
+            }
         }
     }
 }
